@@ -27,6 +27,10 @@ enum Call {
     FlushZeroPending,
     SendRoom,
     SendFullZero,
+    /// something is pending, nobody will process it, and the timeout is short but not zero: the one probe that
+    /// really waits (30 ms of wall-clock time) - whatever the waiting is built on must exist in the calling context
+    FlushPendingShort,
+    SendFullShort,
 }
 
 fn do_call(call: Call, sender: &Sender<Vec<u32>>) -> Result<(), String> {
@@ -46,6 +50,32 @@ fn do_call(call: Call, sender: &Sender<Vec<u32>>) -> Result<(), String> {
                 Ok(())
             } else {
                 Err("blocking_flush(ZERO) with an item pending and no receiver running returned true".into())
+            }
+        }
+        Call::FlushPendingShort => {
+            sender.send(1);
+            let t0 = std::time::Instant::now();
+            let r = emit_batcher::blocking_flush(sender, Duration::from_millis(30));
+            if r {
+                Err("blocking_flush(30ms) with an item pending and no receiver running returned true".into())
+            } else if t0.elapsed() > Duration::from_secs(20) {
+                Err(format!("blocking_flush(30ms) took {:?}", t0.elapsed()))
+            } else {
+                Ok(())
+            }
+        }
+        Call::SendFullShort => {
+            sender.send(1);
+            sender.send(2);
+            match emit_batcher::blocking_send(sender, 9, Duration::from_millis(30)) {
+                Ok(()) => Err("blocking_send(30ms) on a full channel with no receiver running returned Ok".into()),
+                Err(e) => {
+                    if e.into_retryable() == Some(9) {
+                        Ok(())
+                    } else {
+                        Err("blocking_send(30ms) on a full channel did not hand the item back".into())
+                    }
+                }
             }
         }
         Call::SendRoom => match emit_batcher::blocking_send(sender, 7, Duration::from_secs(5)) {
@@ -96,13 +126,13 @@ impl Engine for CallingContexts {
     }
 
     fn rule(&self) -> &'static str {
-        "deterministic probes: 10 calling contexts x 4 immediate calls; no schedule or fault is sampled here (the simulated engines do that); each (context, call) pair is one distinct case"
+        "deterministic probes: 12 calling contexts x 6 calls (four immediate ones and two that wait 30 ms); no schedule or fault is sampled here (the simulated engines do that); each (context, call) pair is one distinct case"
     }
 
     fn run(&self, ch: &mut Choices, ctx: &RunCtx) -> Outcome {
         let mut out = Outcome::default();
-        let context = ch.choose(10);
-        let call = *ch.pick(&[Call::FlushEmpty, Call::FlushZeroPending, Call::SendRoom, Call::SendFullZero]);
+        let context = ch.choose(12);
+        let call = *ch.pick(&[Call::FlushEmpty, Call::FlushZeroPending, Call::SendRoom, Call::SendFullZero, Call::FlushPendingShort, Call::SendFullShort]);
         let (sender, receiver): (Sender<Vec<u32>>, Receiver<Vec<u32>>) = emit_batcher::bounded(2);
         let sender = Arc::new(sender);
         let context_name = ["plain thread", "tokio current-thread runtime", "tokio multi-thread runtime (block_on thread)", "tokio multi-thread worker", "tokio spawn_blocking thread",
@@ -111,6 +141,8 @@ impl Engine for CallingContexts {
             "LocalSet on a current-thread runtime",
             "block_in_place section on a multi-thread worker",
             "plain thread that entered a multi-thread runtime's context (Runtime::enter)",
+            "worker of a multi-thread runtime built without time or IO drivers",
+            "block_on thread of a multi-thread runtime built without time or IO drivers",
         ][context as usize];
         let r: Result<(), String> = match context {
             0 => guarded(call, &sender),
@@ -166,17 +198,27 @@ impl Engine for CallingContexts {
                         .unwrap_or_else(|e| Err(format!("task failed: {e}")))
                 })
             }
-            _ => {
+            9 => {
                 let rt = tokio::runtime::Builder::new_multi_thread().worker_threads(1).enable_all().build().unwrap();
                 let _guard = rt.enter();
                 guarded(call, &sender)
+            }
+            10 => {
+                // the caller's runtime is the caller's business: no `enable_time`, no `enable_io`
+                let rt = tokio::runtime::Builder::new_multi_thread().worker_threads(1).build().unwrap();
+                let s = sender.clone();
+                rt.block_on(async move { tokio::spawn(async move { guarded(call, &s) }).await.unwrap_or_else(|e| Err(format!("task failed: {e}"))) })
+            }
+            _ => {
+                let rt = tokio::runtime::Builder::new_multi_thread().worker_threads(1).build().unwrap();
+                rt.block_on(async { guarded(call, &sender) })
             }
         };
         drop(receiver);
         let line = format!("{call:?} from {context_name}: {r:?}");
         if let Err(why) = r {
             out.violate("C08", "blocking_call_context", format!("{call:?} from a {context_name}: {why}"));
-            if matches!(call, Call::SendRoom | Call::SendFullZero) {
+            if matches!(call, Call::SendRoom | Call::SendFullZero | Call::SendFullShort) {
                 // what a blocking send does with the item and the queue is C09's business, wherever it is called from
                 out.violate("C09", "blocking_send_context", format!("{call:?} from a {context_name}: {why}"));
             }
@@ -195,7 +237,9 @@ impl Engine for CallingContexts {
             6 => "context_local_set_multi_thread_spawn_local",
             7 => "context_local_set_current_thread",
             8 => "context_inside_block_in_place",
-            _ => "context_entered_runtime_plain_thread",
+            9 => "context_entered_runtime_plain_thread",
+            10 => "context_runtime_without_drivers_worker",
+            _ => "context_runtime_without_drivers_block_on",
         });
         if ctx.want_trace {
             out.trace.push(line);
